@@ -880,8 +880,11 @@ impl Runner {
                     if let (ResponseBody::Nodes { total, .. }, 1) = (&r.body, q.responses_seen) {
                         q.first_total = *total;
                     }
+                    // a peer that announces different totals in the packets of one answer leaves it
+                    // open which packet is the last: the handler's own reading (a packet with total
+                    // <= 1, or as many packets as announced) is then taken as the end of the request
                     let terminal = match &r.body {
-                        ResponseBody::Nodes { .. } => q.first_total <= 1 || q.responses_seen >= q.first_total,
+                        ResponseBody::Nodes { total, .. } => *total <= 1 || q.first_total <= 1 || q.responses_seen >= q.first_total || q.responses_seen >= *total,
                         _ => true,
                     };
                     if terminal {
